@@ -132,7 +132,7 @@ func (c *defaultClient) PinPath(ctx context.Context, path string, opts api.PinOp
 		"POST",
 		fmt.Sprintf(
 			"/pins%s?%s",
-			ipfspath.String(),
+			strings.TrimSuffix(ipfspath.String(), "/"),
 			query,
 		),
 		nil,
@@ -155,7 +155,7 @@ func (c *defaultClient) UnpinPath(ctx context.Context, p string) (*api.Pin, erro
 		return nil, err
 	}
 
-	err = c.do(ctx, "DELETE", fmt.Sprintf("/pins%s", ipfspath.String()), nil, nil, &pin)
+	err = c.do(ctx, "DELETE", fmt.Sprintf("/pins%s", strings.TrimSuffix(ipfspath.String(), "/")), nil, nil, &pin)
 	return &pin, err
 }
 
